@@ -8,6 +8,7 @@ mod node;
 mod disk;
 mod cluster;
 mod sched;
+mod crash;
 
 fn main() {
     let args: Vec<String> = std::env::args().collect();
@@ -24,6 +25,8 @@ fn main() {
         "disk" => disk::run(&args[2], &workdir),
         "cluster" => cluster::run(&args[2], &workdir),
         "sched" => sched::run(&args[2], &workdir),
+        "crashb" => crash::run_b(&args[2], &args[3], args.get(4).map(|s| s.as_str()).unwrap_or("A")),
+        "crashc" => crash::run_c(&args[2]),
         d => {
             eprintln!("unknown driver {}", d);
             std::process::exit(2);
